@@ -60,6 +60,7 @@ theorem sim_loop {α : Type} {m : Meta} {name : String} {a b : Node} {ca PRO BOD
         Reach c P (vm k (coll :: st) scs σ c.budget) (vm (k + lsize PRO) (coll :: st) (sc0 :: scs) σ c.budget))
     (Hbody : ∀ (coll : Val) (N k0 : Nat) (st : List Val) (scs : List Scope),
       CodeAt P k0 (loopCode l ci cs car c0 BODY ++ EPI) →
+      (N : Int) < 2 ^ 63 →
       ∀ (i : Nat) (acc : α) (σ : SState) (res : R (α ⊕ Val)) (σ1 : SState) (sc : Scope), i < N →
         Base sc coll N i → Extra sc i acc → fb coll i acc σ = (res, σ1) →
         BodyPost c P S Extra coll N i (k0 + 24 + lsize BODY) (k0 + 32 + lsize BODY) st scs
@@ -140,7 +141,7 @@ theorem sim_loop {α : Type} {m : Meta} {name : String} {a b : Node} {ca PRO BOD
         (hEx _ _ _ "array" coll (.inr (.inr rfl)) (hEx _ _ _ "size" (.int .int N) (.inr (.inl rfl)) hex0))
       have hiter := fun res1 σ2 (hlv : loopIdx (fb coll) N 0 acc0 σ1 = (res1, σ2)) =>
         loop_iter (fb coll) S Extra (fun sc j acc v h => hEx sc j acc "i" v (.inl rfl) h) coll N hnS
-          (k0 + 32 + lsize BODY) hhead hK (Hbody coll N k0 st scs hle) N 0 acc0 _ σ1 res1 σ2 (by omega) hbase hextra hlv
+          (k0 + 32 + lsize BODY) hhead hK (Hbody coll N k0 st scs hle hnS) N 0 acc0 _ σ1 res1 σ2 (by omega) hbase hextra hlv
       rcases SM.bind_cases hrest with ⟨e, hle', rfl⟩ | ⟨r1, σ2, hlv, hrest2⟩
       · exact hiter _ _ hle'
       · have hpost := hiter _ _ hlv
